@@ -21,7 +21,7 @@ def scenes2(tier):
     ta = {"F1": lambda i, **k: fixed(i, 1, **k), "F2": lambda i, **k: fixed(i, 2, **k),
           "V": lambda i, **k: var(i, max_duration=3, **k), "Z": lambda i, **k: zero(i, **k)}
     combos = [("F1", "F2"), ("F2", "V"), ("F1", "Z"), ("V", "V")]
-    if tier == "thorough":
+    if tier in ("thorough", "deep"):
         combos += [("F1", "F1"), ("F2", "F2"), ("V", "Z"), ("Z", "Z")]
     for (x, y) in combos:
         for oa, ob in [(False, False), (True, False), (False, True), (True, True)]:
@@ -35,7 +35,7 @@ def scenes3(tier):
     out = []
     out.append(("F1-F1-F2", [fixed("a", 1), fixed("b", 1), fixed("c", 2)]))
     out.append(("F1-F2o-V", [fixed("a", 1), fixed("b", 2, optional=True), var("c", max_duration=2)]))
-    if tier == "thorough":
+    if tier in ("thorough", "deep"):
         out.append(("F1o-F1o-F1", [fixed("a", 1, optional=True), fixed("b", 1, optional=True), fixed("c", 1)]))
         out.append(("F2-Z-V", [fixed("a", 2), zero("b"), var("c", min_duration=1, max_duration=2)]))
     return out
@@ -45,7 +45,7 @@ def scenes3(tier):
 def task_constraints_2(H, tier):
     """Constraints over tasks a, b: (label, [constraint decls])."""
     out = []
-    vals = [-1, 0, 1, 2, H - 1, H, H + 1] if tier == "thorough" else [0, 1, H - 1, H]
+    vals = [-1, 0, 1, 2, H - 1, H, H + 1] if tier in ("thorough", "deep") else [0, 1, H - 1, H]
     for t in ("a", "b"):
         for v in vals:
             out.append(("TaskStartAt", [con("TaskStartAt", "c1", task=R(t), value=v)]))
@@ -64,7 +64,7 @@ def task_constraints_2(H, tier):
     out.append(("TasksContiguous", [con("TasksContiguous", "c1", list_of_tasks=[R("a"), R("b")])]))
     out.append(("TasksContiguous", [con("TasksContiguous", "c1", list_of_tasks=[R("b"), R("a")])]))
     # groups
-    wins = [None] + [("iv", iv) for iv in intervals(H) if iv[1] - iv[0] >= 2][:: (1 if tier == "thorough" else 2)] + \
+    wins = [None] + [("iv", iv) for iv in intervals(H) if iv[1] - iv[0] >= 2][:: (1 if tier in ("thorough", "deep") else 2)] + \
            [("len", L) for L in range(1, H + 1)]
     for w in wins:
         kw = {}
@@ -78,7 +78,7 @@ def task_constraints_2(H, tier):
             for k in ("lax", "strict", "tight"):
                 out.append(("OrderedTaskGroup", [con("OrderedTaskGroup", "c1", list_of_tasks=[R(x) for x in order], kind=k, **kw)]))
     # ScheduleNTasksInTimeIntervals
-    ivs1 = [[iv] for iv in intervals(H) if iv[1] - iv[0] >= 1][:: (1 if tier == "thorough" else 2)]
+    ivs1 = [[iv] for iv in intervals(H) if iv[1] - iv[0] >= 1][:: (1 if tier in ("thorough", "deep") else 2)]
     ivs2 = [[(0, 2), (2, 4)], [(0, 1), (3, 4)], [(0, 3), (1, 4)], [(0, 2), (1, 3)]]
     for ivl in ivs1 + ivs2:
         for n in (0, 1, 2):
